@@ -778,6 +778,8 @@ def run(prog, rep, tier, snap):
     rep.rule("R05.6", "the buffered writer never formats from a consumed va_list (records larger than the write buffer)", 1)
     valist.r_valist(prog, rep, "R05.6", only=("fdprintf",))
     rep.call(valist.r_stale_room, prog, rep, "R05.6")
+    rep.rule("R05.11", "the buffered writer reports success only when the text fitted the room it was formatted into (value-fixed walk around the buffer's end)", 1)
+    rep.call(valist.r_fits, prog, rep, "R05.11")
     from ..rules import state
     rep.rule("R05.9", "the serialiser carries no state from one task to the next (memo keys must cover every argument)", 1)
     rep.call(state.no_carried_state, prog, rep, "R05.9", "serialise")
@@ -798,3 +800,8 @@ LEVEL_TEXT = LEVEL_TEXT + (" Also: owned strings inherited from the calendar lev
                            "occurrences writes all of it; nothing derived from the writer's fill level is used across a flush; the serialiser converts a "
                            "rule stream's wall-clock proto before comparing it with cached occurrences; the byte behind a backslash must reach the "
                            "task (it does not: known finding).")
+
+# texts brought up to date with the rules added in the last rounds
+LEVEL_TEXT = LEVEL_TEXT + ' The buffered writer reports success only when the text fitted the room it was formatted into (walk around the end of the buffer).'
+TECHNIQUE = (TECHNIQUE if isinstance(TECHNIQUE, str) else TECHNIQUE) + '; value-fixed walk of the buffered writer'
+
